@@ -18,17 +18,21 @@
 #include "dtest.c"
 #undef main
 
-enum { K_YMD, K_YWD, K_YMCW, K_YD, K_BIZDA, K_YMD_DT, K_YWD_DT, K_YMCW_DT, K_TIME, K_EPOCH, NKIND };
-static const char *const kind_name[NKIND] = {"ymd", "ywd", "ymcw", "yd", "bizda", "ymd-datetime", "ywd-datetime", "ymcw-datetime", "time", "epoch@"};
+enum { K_YMD, K_YWD, K_YMCW, K_YD, K_BIZDA, K_YMD_DT, K_YWD_DT, K_YMCW_DT, K_TIME, K_EPOCH, K_LDN, K_JDN, K_MDN, K_EPOCHFMT, K_YMD_DTNS, NKIND };
+static const char *const kind_name[NKIND] = {"ymd", "ywd", "ymcw", "yd", "bizda", "ymd-datetime", "ywd-datetime", "ymcw-datetime", "time", "epoch@",
+	"ldn", "jdn", "mdn", "epoch%s", "ymd-datetime-ns"};
+/* values of these kinds are read through an input format (dtest -i FMT A OP B) */
+static const char *const kind_ifmt[NKIND] = {NULL, NULL, NULL, NULL, NULL, NULL, NULL, NULL, NULL, NULL, "ldn", "jdn", "mdn", "%s", "%FT%T.%N"};
 
 struct val_s {
 	char text[48];
 	int kind;
 	int64_t inst;	/* seconds; for times the second of the day */
+	int ns;		/* nanoseconds (ymd-datetime-ns) */
 	int mil;	/* text carries 24:00:00 */
 	int di;		/* index of the seam day the value comes from (-1: a time) */
 };
-#define MAXVAL	1024
+#define MAXVAL	2048
 static struct val_s vals[MAXVAL];
 static int nvals;
 
@@ -86,6 +90,9 @@ mk_vals(int thorough)
 		if (p->isbd) {
 			add_val(K_BIZDA, ins, 0, "%04d-%02d-%02db", p->y, p->m, p->bd);
 		}
+		add_val(K_LDN, ins, 0, "%lld", (long long)rc_ldn(p->rd));
+		add_val(K_JDN, ins, 0, "%.1f", rc_jdn(p->rd));
+		add_val(K_MDN, ins, 0, "%lld", (long long)rc_mdn(p->rd));
 		if (i < ndt || (i >= NDAY_QUICK && i < NDAY_QUICK + 4)) {
 			for (int t = 0; t < NTODS; t++) {
 				int s = tods[t];
@@ -96,6 +103,18 @@ mk_vals(int thorough)
 					add_val(K_YMCW_DT, ins + s, s == 86400, "%04d-%02d-%02d-%02dT%02d:%02d:%02d", p->y, p->m, p->mcnt, p->wd, s / 3600, s / 60 % 60, s % 60);
 					if (s != 86400) {
 						add_val(K_EPOCH, ins + s, 0, "@%lld", (long long)(ins + s));
+						if (ins + s > 0) {
+							/* (a count of 0 or below as a command-line word is C09/C11's business) */
+							add_val(K_EPOCHFMT, ins + s, 0, "%lld", (long long)(ins + s));
+						}
+					}
+					if (t == 4) {
+						static const int nss[3] = {100000000, 900000000, 1};
+						for (int k = 0; k < 3; k++) {
+							add_val(K_YMD_DTNS, ins + s, 0, "%04d-%02d-%02dT%02d:%02d:%02d.%09d", p->y, p->m, p->d,
+								s / 3600, s / 60 % 60, s % 60, nss[k]);
+							vals[nvals - 1].ns = nss[k];
+						}
 					}
 				}
 			}
@@ -134,7 +153,7 @@ want_status(int op, int e)
 
 /* run the binary; returns the exit status, or 1000 + signal, or -1 */
 static int
-run_binary(const char *a, const char *op, const char *b)
+run_binary(const char *ifmt, const char *a, const char *op, const char *b)
 {
 	char exe[512];
 	pid_t pid;
@@ -153,7 +172,11 @@ run_binary(const char *a, const char *op, const char *b)
 		dup2(n, 0), dup2(n, 1), dup2(n, 2);
 		alarm(10);
 		/* "--" is not used: the stock command line is `dtest A OP B' */
-		execl(exe, "dtest", a, op, b, (char*)NULL);
+		if (ifmt) {
+			execl(exe, "dtest", "-i", ifmt, a, op, b, (char*)NULL);
+		} else {
+			execl(exe, "dtest", a, op, b, (char*)NULL);
+		}
 		_exit(127);
 	}
 	while (waitpid(pid, &st, 0) < 0 && errno == EINTR) {
@@ -180,7 +203,7 @@ judge(int i, int j, int binding_all, int replay)
 {
 	const struct val_s *a = vals + i, *b = vals + j;
 	int same = a->kind == b->kind;
-	int e = (a->inst > b->inst) - (a->inst < b->inst);
+	int e = a->inst != b->inst ? (a->inst > b->inst) - (a->inst < b->inst) : (a->ns > b->ns) - (a->ns < b->ns);
 	int got[NOPS], bad = 0, c;
 	char key[200], cas[64], cmd[200];
 	EX_CTR(c_trans, "transitions");
@@ -191,22 +214,32 @@ judge(int i, int j, int binding_all, int replay)
 
 	snprintf(cas, sizeof(cas), "%d %d %d", ex.thorough, i, j);
 	for (int op = NOPS - 1; op >= 0; op--) {
-		const char *av[4] = {"dtest", a->text, ops[op], b->text};
+		const char *av[6];
+		int ac = 0;
 		struct fs_opts o = {0};
 		struct fs_result r;
 
 		if (!same && op != OP_CMP) {
 			continue;
 		}
+		av[ac++] = "dtest";
+		if (same && kind_ifmt[a->kind]) {
+			av[ac++] = "-i";
+			av[ac++] = kind_ifmt[a->kind];
+		}
+		av[ac++] = a->text;
+		av[ac++] = ops[op];
+		av[ac++] = b->text;
 		o.timeout_s = 5;
 		o.now = 1330000000;	/* 2012-02-23: nothing here depends on it */
-		fs_run(dtest_main, 4, av, &o, &r);
+		fs_run(dtest_main, ac, av, &o, &r);
 		++*c_eval;
 		got[op] = r.exited ? r.status : r.signaled ? 1000 + r.sig : -1;
 		ex_outcome(ex_hash_mix((uint64_t)got[op] * 16 + (uint64_t)op, ex_hash(a->text, strlen(a->text)) ^ (ex_hash(b->text, strlen(b->text)) << 1)));
-		snprintf(cmd, sizeof(cmd), "dtest %s %s %s; echo $?", a->text, ops[op], b->text);
+		snprintf(cmd, sizeof(cmd), "dtest %s%s%s%s %s %s; echo $?", same && kind_ifmt[a->kind] ? "-i '" : "", same && kind_ifmt[a->kind] ? kind_ifmt[a->kind] : "",
+			 same && kind_ifmt[a->kind] ? "' " : "", a->text, ops[op], b->text);
 		if (replay) {
-			printf("  dtest %s %s %s: %s\n", a->text, ops[op], b->text, fs_ending(&r));
+			printf("  %s: %s\n", cmd, fs_ending(&r));
 		}
 		if (!r.exited || r.status > 3) {
 			snprintf(key, sizeof(key), "dtest kinds=%s/%s op=%s: %s", kind_name[a->kind], kind_name[b->kind], ops[op],
@@ -216,7 +249,7 @@ judge(int i, int j, int binding_all, int replay)
 		}
 		fs_free(&r);
 		if (same && (binding_all || op == OP_CMP)) {
-			int bs = run_binary(a->text, ops[op], b->text);
+			int bs = run_binary(kind_ifmt[a->kind], a->text, ops[op], b->text);
 			++*c_bind;
 			if (replay) {
 				printf("    binary: status %d\n", bs);
@@ -256,7 +289,8 @@ judge(int i, int j, int binding_all, int replay)
 		int want = c == -2 ? 3 : want_status(op, c);
 		if (got[op] != want) {
 			snprintf(key, sizeof(key), "dtest operator table op=%s when --cmp says %s: status %d", ops[op], ord_name(c), got[op]);
-			snprintf(cmd, sizeof(cmd), "dtest %s %s %s; echo $?", a->text, ops[op], b->text);
+			snprintf(cmd, sizeof(cmd), "dtest %s%s%s%s %s %s; echo $?", kind_ifmt[a->kind] ? "-i '" : "", kind_ifmt[a->kind] ? kind_ifmt[a->kind] : "",
+				 kind_ifmt[a->kind] ? "' " : "", a->text, ops[op], b->text);
 			ex_viol(key, i * MAXVAL + j, cas, cmd, "dtest %s %s %s ends with status %d although --cmp on the same pair ends with %d (%s), "
 				"for which the documented status of %s is %d", a->text, ops[op], b->text, got[op], got[OP_CMP], ord_name(c), ops[op], want);
 			if (replay) {
@@ -269,7 +303,8 @@ judge(int i, int j, int binding_all, int replay)
 	if (c != e) {
 		snprintf(key, sizeof(key), "dtest kind=%s%s timeline=%s answers=%s", kind_name[a->kind], (a->mil || b->mil) ? " with-24:00:00" : "",
 			 ord_name(e), ord_name(c));
-		snprintf(cmd, sizeof(cmd), "dtest %s --cmp %s; echo $?", a->text, b->text);
+		snprintf(cmd, sizeof(cmd), "dtest %s%s%s%s --cmp %s; echo $?", kind_ifmt[a->kind] ? "-i '" : "", kind_ifmt[a->kind] ? kind_ifmt[a->kind] : "",
+			 kind_ifmt[a->kind] ? "' " : "", a->text, b->text);
 		ex_viol(key, i * MAXVAL + j, cas, cmd, "dtest %s --cmp %s ends with status %d (first is %s), on the timeline the first is %s (status %d)",
 			a->text, b->text, got[OP_CMP], ord_name(c), ord_name(e), want_status(OP_CMP, e));
 		if (replay) {
